@@ -8,7 +8,7 @@
 (* accepted; the second words with y >= j have relative length             *)
 (* (x_m + u - j)/p1: to 2^-44.                                             *)
 (***************************************************************************)
-EXTENDS Limb14, BtpeTable, H2peTable, PdTable, MtTable, Integers, Sequences, TLC, Json, IOUtils
+EXTENDS Limb14, BtpeTable, H2peTable, PdTable, MtTable, ChengTable, Integers, Sequences, TLC, Json, IOUtils
 
 Rec == ndJsonDeserialize(IOEnv.TRACE)
 VARIABLE l
@@ -46,6 +46,12 @@ Rule == /\ Ev.res = "Ok"
                                 /\ Ev.x_ok /\ Ev.accepted_at_zero
                                 /\ Near14(Ev.T, a.frac, IF Ev.ft = "f64" THEN 64 - 32 ELSE 64 - 14)
                                 /\ Cmp(Mul(AbsDiff(Ev.outq, a.outq), Pow2(IF Ev.ft = "f64" THEN 38 ELSE 16)), a.outq) <= 0
+             \* Cheng BB / BC (Beta<f64>): for the first uniform u1 the value returned is the table's (2^-44 of 1) and the accepting
+             \* second uniform words are a prefix of the relative length the documented tests give (2^-36)
+             [] Ev.op = "cheng" -> LET a == CTab[Ev.case].us[Ev.i] IN
+                                   /\ Ev.accepted_at_zero
+                                   /\ Near14(Ev.T, a.frac, 64 - 36)
+                                   /\ Near14(Ev.xq, a.xq, 60 - 44)
              [] OTHER -> FALSE
 
 TInit == l = 1
